@@ -155,10 +155,10 @@ def suite_pt(ctx, case):
     for full, diag in ((0, 1), (1, 1), (0, 0), (1, 0)):
         got = list(tables[0].iterpairs(full=bool(full), diagonal=bool(diag)))
         line = ' '.join('%d:%d' % (i, j) for (i, j), _, _ in got)
-        ctx.corr('pairtable', {'n': n, 'iter': [full, diag]}, drv.ask('pt.iter %d %d %d' % (n, full, diag)), line, what='iterpairs order')
+        ctx.corr('pairtable', {'n': n, 'ops': case['ops'], 'iter': [full, diag]}, drv.ask('pt.iter %d %d %d' % (n, full, diag)), line, what='iterpairs order')
         want = [(i, j) for i in range(n) for j in range(n) if (full or (i <= j if diag else i < j))]
         ok = [(i, j) for (i, j), _, _ in got] == want and all(tt == (types[i], types[j]) and (v is tables[0][tt[0], tt[1]]) for (i, j), tt, v in got)
-        ctx.pred('pairtable', {'n': n, 'iter': [full, diag]}, ok, 'iterpairs(full=%d,diagonal=%d) wrong' % (full, diag), key='C14:iterpairs')
+        ctx.pred('pairtable', {'n': n, 'ops': case['ops'], 'iter': [full, diag]}, ok, 'iterpairs(full=%d,diagonal=%d) wrong' % (full, diag), key='C14:iterpairs')
 
 def suite_vt(ctx, case):
     n = case['n']; types = NAMES[:n]
